@@ -290,6 +290,21 @@ def analyse(fn, call_const, uses_context, what):
                 loops[s[3]] = s
     send_loops = [l for l in loops.values()
                   if any(e[1] == 'call:send' for bp in l[2] for e in bp.events())]
+    # the same loop statement reached through different paths before it is one loop
+    if len({id(l[1]) for l in send_loops}) == 1 and len(send_loops) > 1:
+        send_loops = send_loops[:1]
+    # the driver works on the text and position it was given: rule functions record positions, the
+    # finalisation converts them and the caller reads them against the caller's text
+    params = [a.arg for a in fn.args.args]
+    if send_loops:
+        loop_end = getattr(send_loops[0][1], 'end_lineno', 10 ** 9)
+        for n in ast.walk(fn):
+            if isinstance(n, ast.Name) and isinstance(n.ctx, (ast.Store, ast.Del)) and n.id in params \
+                    and n.lineno <= loop_end:
+                bad.append(('DRIVER-coordinates', f'{what}: the driver rebinds its parameter `{n.id}` (line {n.lineno}) '
+                                                  f'before it has finished running the rule functions: positions, spans '
+                                                  f'and error locations then refer to a text or offset other than '
+                                                  f'the caller\'s'))
     if len(send_loops) != 1:
         raise AnalysisError(f'{what}: expected exactly one loop resuming generators with .send, '
                             f'found {len(send_loops)}')
